@@ -368,6 +368,19 @@ def gen_step(world, rng, cfg):
     if x < cfg['p_fault']:
         fault = rng.choice(spec['faults'])
     op = None
+    if cfg.get('big_events') and not world.big_done and rep.m.removal and len(world.reps) <= 2:
+        # more than 1000 stream events (any internal block size of a writer): every pair appears and
+        # vanishes at 36 separate instants
+        world.big_done = True
+        nodes = cfg['nodes']
+        pairs = [[a, b] for i, a in enumerate(nodes) for b in nodes[i + 1:]]
+        ids = rep.m.instants()
+        t0 = (ids[-1] + 2) if ids else cfg['origin']
+        ops_ = [{'op': 'bulk', 'g': rep_i, 'kind': 'from', 'form': 'method', 'items': pairs, 't': t0 + 2 * k,
+                 'e': t0 + 2 * k + 1, 'container': 'list', 't_kw': True} for k in range(max(36, 1100 // (2 * len(pairs)) + 1))]
+        world.pending = ops_[1:] + [dict(gen.gen_restart(rng, rep, cfg, 'interactions'), g=rep_i, rid=world.next_rid)]
+        world.next_rid += 1
+        return ops_[0]
     if cfg.get('big') and not world.big_done and rep.m.removal and len(world.reps) <= 2:
         # one very long span (more rows than any internal block or buffer size) early in the run
         world.big_done = True
@@ -625,7 +638,13 @@ def run(focus, seed=None, ops_list=None, profile=None, keep_log=False):
             world.check_every = rng.choice([1, 1, 1, 1, 2, 5, 10 ** 6])     # frequent observation can mask stale caches
             world.poke = rng.random() < 0.5
             world.rec({'check_every': world.check_every, 'poke': world.poke})
-            if FOCUS[focus].get('io_faults') and rng.random() < 0.04:
+            if focus == 'C10' and rng.random() < 0.02:
+                cfg['big_events'] = True
+                cfg['nodes'] = (cfg['nodes'] + [n for n in (gen.INT_NODES if isinstance(cfg['nodes'][0], int) else gen.STR_NODES)
+                                                if n not in cfg['nodes']])[:6]
+                cfg['steps'] = 60
+                cfg['p_derive'] = 0.0
+            elif FOCUS[focus].get('io_faults') and rng.random() < 0.04:
                 cfg['big'] = True
                 world.big = True
                 cfg['steps'] = min(cfg['steps'], 8)
@@ -635,6 +654,10 @@ def run(focus, seed=None, ops_list=None, profile=None, keep_log=False):
             for knob in ('p_fault', 'p_derive', 'p_node'):
                 if knob in FOCUS[focus]:
                     cfg[knob] = rng.choice(FOCUS[focus][knob])
+            if cfg.get('big_events'):
+                cfg['steps'], cfg['p_derive'] = 60, 0.0
+            elif cfg.get('big'):
+                cfg['p_derive'] = 0.5
             world.rec({'seed': seed, 'cfg': {k: v for k, v in cfg.items() if k != 'w'}})
             if 'sched' in FOCUS[focus]['hist'] and rng.random() < 0.3:
                 roots, a, b = gen_sched_run(world, rng, cfg)
